@@ -37,8 +37,8 @@ const (
 	VStruct = "struct"
 	VLong   = "long" // strings whose marshaled length sits on the length-prefix boundaries (127/128/129, 255/256, 16384)
 
-	VIface  = "iface" // comparable struct type whose interface{} field holds an uncomparable slice
-	VPtr    = "ptr"   // pointer values: equal by content, never by identity (a fresh pointer per call)
+	VIface = "iface" // comparable struct type whose interface{} field holds an uncomparable slice
+	VPtr   = "ptr"   // pointer values: equal by content, never by identity (a fresh pointer per call)
 	// VNil: set-style use - every value is nil and the loader is given ValuesLike: nil (with
 	// UnmarshalerUsesRegisteredTypes, as the repository's TestNilValues does); binary format only
 	VNil = "nil"
@@ -98,12 +98,18 @@ type Config struct {
 	// Cmp "scaled": the loader is given a KeyCompare that returns 3x the default result
 	// (only the sign of a comparison is meaningful).
 	Cmp string `json:"cmp,omitempty"`
+	// Big > 0: the key universe is a dense run of Big keys (instead of the ~60 hand-picked ones), so that
+	// histories reach the heights that only sizes in the hundreds allow (height 2 at the default branch factor 16).
+	Big int `json:"big,omitempty"`
 }
 
 func (c Config) String() string {
 	s := fmt.Sprintf("bf=%d %s key=%s val=%s cache=%s marsh=%s", c.BF, c.Format, c.Key, c.Val, c.Cache, c.Marshaler)
 	if c.Cmp != "" {
 		s += " cmp=" + c.Cmp
+	}
+	if c.Big > 0 {
+		s += fmt.Sprintf(" big=%d", c.Big)
 	}
 	return s
 }
@@ -427,7 +433,7 @@ func (c Config) Pool() []interface{} {
 		}
 		return out
 	}
-	ck := fmt.Sprintf("%s/%d/%s", c.Key, c.BF, c.Marshaler)
+	ck := fmt.Sprintf("%s/%d/%s/%d", c.Key, c.BF, c.Marshaler, c.Big)
 	if v, ok := poolCache.Load(ck); ok {
 		return v.([]interface{})
 	}
@@ -445,7 +451,36 @@ func (c Config) Pool() []interface{} {
 	return out
 }
 
+// buildBigPool is a dense run of c.Big keys of the configuration's key type.
+func (c Config) buildBigPool() []interface{} {
+	out := make([]interface{}, 0, c.Big)
+	for i := 0; i < c.Big; i++ {
+		switch c.Key {
+		case KInt:
+			out = append(out, i-c.Big/3)
+		case KInt64:
+			out = append(out, int64(i-c.Big/3))
+		case KUint:
+			out = append(out, uint(i))
+		case KUint64:
+			out = append(out, uint64(i))
+		case KString:
+			out = append(out, fmt.Sprintf("k%d", i))
+		case KBytes:
+			out = append(out, []byte{byte(i), byte(i >> 8), 0xfe})
+		case KStruct:
+			out = append(out, SK{A: i % 5, B: fmt.Sprintf("b%d", i)})
+		default:
+			panic("bad key kind for a big pool: " + c.Key)
+		}
+	}
+	return out
+}
+
 func (c Config) buildPool() []interface{} {
+	if c.Big > 0 {
+		return c.buildBigPool()
+	}
 	bf := int64(c.BF)
 	pw := func(e int) int64 {
 		r := int64(1)
